@@ -41,7 +41,9 @@ def source(c, split=False):
     pos = c["pos"]
     # MC_C12!Names: the member's own name (f) and its neighbour's (k)
     nm = c.get("name", "plain")
-    f_, k_ = {"plain": ("f", "k"), "py_keyword": ("from", "k"), "renamed": ('#[serde(rename = "wire-name")] f', "k"), "kw_all": ("from", "pass")}[nm]
+    f_, k_ = {"plain": ("f", "k"), "py_keyword": ("from", "k"), "renamed": ('#[serde(rename = "wire-name")] f', "k"), "kw_all": ("from", "pass"),
+                # the member carries a type override for ONE language (Kotlin): every other language still writes its Rust type
+                "kotlin_override": ('#[typeshare(kotlin(type = "String"))] f', "k")}[nm]
     if pos == "field":
         host = f"#[typeshare]\npub struct Host{g} {{ pub {f_}: {t}, pub {k_}: u32 }}\n".replace("pub #[serde", "#[serde").replace('")] f:', '")] pub f:')
     elif pos == "field_default":     # the optional marker comes from serde(default), not from the type
